@@ -679,6 +679,6 @@ func runCase(c Case, ctx *hx.Ctx) *hx.Failure {
 	return nil
 }
 
-func TestPropAddress(t *testing.T) { hx.Check(t, 3000, genCase, runCase) }
+func TestPropAddress(t *testing.T) { hx.Check(t, 9000, genCase, runCase) }
 
 func TestReplay(t *testing.T) { hx.Replay(t, "TestPropAddress", 2, runCase) }
